@@ -67,7 +67,7 @@ TRIAGE = [
     (r"^vm::heap::Heap::(free|put|maybe_put|get_at_index|get_at_index_mut)$", r"unwrap", INV_PTR),
     (r"^vm::heap::Heap::maybe_put_cell$", r"panic", "INV-DATUM (checked by R06q): both ways into the compiler for a Cell that did not come from the reader - the eval builtin (a run-time value converted by Heap::get_as_cell) and Vm::prepare_eval (a Cell of the host's making) - reject a cell that is not a datum (Cell::is_datum) before compiling; put_cell of a datum component yields a Ptr"),
     (r"^vm::heap::Heap::get_as_cell(_under)?$", r"unwrap", "`rest` is a Pair by the loop invariant (the matched Pair arm, then only cells tested is_pair()); as_cdr of a Pair is a Ptr"),
-    (r"^vm::heap::Heap::get_as_cell(_under)?$", r"panic", "INV-USERVAL: register, frame-linkage and opcode cells are never the value of an expression or an element of user data"),
+    (r"^vm::heap::Heap::get_as_cell(_under)?$", r"panic", "INV-USERVAL: register, frame-linkage and opcode cells are never the value of an expression or an element of user data; the one caller that converts something other than a value — the decompiler, for the operands of an instruction — leaves the Ptr-encoded offsets of JMP / JNT alone (R06v)"),
     (r"^vm::heap::Heap::sweep$", r"Overflow\(Sub\)", "free_list only grows during sweep"),
     (r"^vm::heap::Heap::used_size$", r"Overflow\(Sub\)", "free_list holds distinct indices of the heap vector"),
     (r"^vm::Vm::load_prelude$", r"unwrap", "the input is the prelude compiled into the library (include_str!); loaded by every VM the test suite creates"),
